@@ -29,7 +29,14 @@ def make_scratch(root, edits):
         for fn in os.listdir(src):
             if fn.endswith(".py"):
                 shutil.copy(os.path.join(src, fn), os.path.join(dst, fn))
-    for rel, old, new in edits:
+    for e in edits:
+        if e[0] == "@rename_locals":
+            ok = rename_locals(os.path.join(d, e[1]), e[2])
+            if not ok:
+                shutil.rmtree(d, ignore_errors=True)
+                return None
+            continue
+        rel, old, new = e
         p = os.path.join(d, rel)
         with open(p) as f:
             s = f.read()
@@ -41,6 +48,55 @@ def make_scratch(root, edits):
     return d
 
 
+def rename_locals(path, qual):
+    """behaviour-preserving rewrite: every local variable (not a parameter) of function `qual`
+    (`func` or `Class.method`) is renamed, and the function is re-emitted by ast.unparse (comments and layout lost)"""
+    import ast
+    src = open(path).read()
+    tree = ast.parse(src)
+    target = None
+    parts = qual.split(".")
+    for n in tree.body:
+        if len(parts) == 1 and isinstance(n, ast.FunctionDef) and n.name == parts[0]:
+            target = n
+        if len(parts) == 2 and isinstance(n, ast.ClassDef) and n.name == parts[0]:
+            for k in n.body:
+                if isinstance(k, ast.FunctionDef) and k.name == parts[1]:
+                    target = k
+    if target is None:
+        return False
+    from .loader import local_names
+    params = {a.arg for a in target.args.posonlyargs + target.args.args + target.args.kwonlyargs}
+    if target.args.vararg:
+        params.add(target.args.vararg.arg)
+    if target.args.kwarg:
+        params.add(target.args.kwarg.arg)
+    locs = {x for x in local_names(target) if x not in params}
+    # comprehension / lambda variables are renamed too when they do not clash
+    mapping = {x: x + "_rn" for x in locs}
+
+    class R(ast.NodeTransformer):
+        def visit_Name(self, node):
+            if node.id in mapping:
+                node.id = mapping[node.id]
+            return node
+
+        def visit_ExceptHandler(self, node):
+            if node.name in mapping:
+                node.name = mapping[node.name]
+            self.generic_visit(node)
+            return node
+    seg = ast.get_source_segment(src, target)
+    R().visit(target)
+    new = ast.unparse(target)
+    indent = " " * target.col_offset
+    new = ("\n" + indent).join(new.split("\n"))
+    if src.count(seg) != 1:
+        return False
+    open(path, "w").write(src.replace(seg, new))
+    return True
+
+
 def run_variant(v):
     from .__main__ import run_property
     root = repo_root()
@@ -49,7 +105,8 @@ def run_variant(v):
         return dict(v, outcome="skipped", detail="edit no longer applies")
     try:
         import ast
-        for rel, _, _ in v["edits"]:
+        for e in v["edits"]:
+            rel = e[1] if e[0] == "@rename_locals" else e[0]
             ast.parse(open(os.path.join(d, rel)).read())
         buf = io.StringIO()
         with contextlib.redirect_stdout(buf), contextlib.redirect_stderr(buf):
